@@ -613,6 +613,113 @@ def site_ticket(case, rng):
     return finish(case, p, 'server', so, co, m, how == 'honest', CRED_ID[case['key']])
 
 
+def site_ticket_replay(case, rng):
+    """(8) a ticket the server can decrypt but must IGNORE (other PRF hash / expired), replayed
+    by a peer that knows only the opaque ticket bytes (garbage binder, no certificate, no
+    resumption secret): the full handshake that follows must not attribute the client chain
+    stored inside the ticket"""
+    from tlslite.session import Session
+    ver, how = (3, 4), case['how']
+    tk = [bytearray(b'\x11' * 32)]
+    p0 = loop.Pair()
+    cc, ck = loop.creds(case['key'])
+    sc, sk = loop.creds('rsa')
+    co, so = p0.handshake(client_kw=dict(certChain=cc, privateKey=ck, settings=vset(ver, cipherNames=['aes256gcm'])),
+                          server_kw=dict(certChain=sc, privateKey=sk, reqCert=True, settings=vset(ver, ticketKeys=tk)))
+    loop.drive([p0.client.readAsync(max=0, min=0)])
+    victim = p0.client.session
+    if co[0] != 'ok' or not victim.tickets:
+        return {'site': case['site'], 'harness_error': 'no ticket obtained: %r' % (co,), 'case': case}
+    stolen = Session()
+    stolen.resumable = True
+    stolen.cipherSuite = victim.cipherSuite
+    stolen.serverName = victim.serverName
+    stolen.srpUsername = None
+    stolen.tickets = list(victim.tickets)
+    stolen.resumptionMasterSecret = bytearray(len(victim.resumptionMasterSecret))    # the attacker has no secret
+    r = Run(case, rng)
+    p = r.p
+    r.send_hook(p.client, 'none')
+    r.recv_hook(p.client)
+    clock = None
+    names = ['aes256gcm']
+    sset = dict(ticketKeys=tk)
+    if how == 'hash-change':
+        names = ['aes128gcm']                    # SHA-256 suites only: the SHA-384 ticket PSK cannot be used
+    try:
+        if how == 'expired':
+            clock = loop.FakeClock(start=__import__('time').time() + 3 * 24 * 3600).install()
+        co, so = p.handshake(client_kw=dict(session=stolen, settings=vset(ver, cipherNames=names)),
+                             server_kw=dict(certChain=sc, privateKey=sk, reqCert=bool(case.get('req_cert')),
+                                            settings=vset(ver, **sset)))
+    finally:
+        if clock is not None:
+            clock.uninstall()
+    m = base_model(4, ver)
+    m['psk'] = None                              # no usable PSK: the ticket is skipped before the binder is looked at
+    m['prf'] = 'sha256' if how == 'hash-change' else 'sha384'
+    m['ticket_chain'] = [CRED_ID[case['key']]]
+    m['req_cert'] = bool(case.get('req_cert'))
+    m['own_chain'] = [CRED_ID['rsa']]
+    if case.get('req_cert'):                     # the attacker answers the CertificateRequest with an empty list
+        m['cert'] = {'chain': [], 'cert': [], 'key': 0, 'keytype': 'rsa', 'curve_hash': None, 'policy': None, 'dc': []}
+    m['a_fin'].append((3, [11], True))
+    o = finish(case, p, 'server', so, co, m, True, None)
+    o['unproved_ticket_chain'] = o['code'] == 0 and bool(o['ident']['client'])
+    return o
+
+
+def site_srp_multiple(case, rng):
+    """(7) SRP public value that is 0 mod N: A = k*N from a password-less client (server under
+    test; the attacker derives the Finished from premaster 0), B = k*N from a server (client
+    under test)"""
+    from tlslite.utils.cryptomath import numberToByteArray
+    ver, k, verifier = tuple(case['ver']), case['k'], case.get('verifier', 'server')
+    r = Run(case, rng)
+    p = r.p
+    db = loop.make_verifier_db()
+    if verifier == 'server':
+        peer = p.client
+        orig = peer._clientKeyExchange
+
+        def _cke(settings, cipherSuite, clientCertChain, privateKey, certificateType, tackExt, clientRandom,
+                 serverRandom, keyExchange):
+            def process(pub, ske, kx=keyExchange):
+                kx.A = k * ske.srp_N
+                return numberToByteArray(0)          # S = 0 whatever the verifier is
+            keyExchange.processServerKeyExchange = process       # the PEER's own key-exchange object
+            return orig(settings, cipherSuite, clientCertChain, privateKey, certificateType, tackExt, clientRandom,
+                        serverRandom, keyExchange)
+        peer._clientKeyExchange = _cke
+        r.send_hook(peer, 'none')
+        r.recv_hook(peer)
+        pw = b'i do not know the password'
+    else:
+        peer = p.server
+
+        def bad_b(m):
+            if isinstance(m, ServerKeyExchange):
+                m.srp_B = k * m.srp_N
+            return m
+        r.send_hook(peer, 'none', extra=bad_b)
+        r.recv_hook(peer)
+        pw = b'password'
+    co, so = p.handshake(client_kw=dict(username=bytearray(b'test'), password=bytearray(pw), settings=vset(ver)),
+                         server_kw=dict(verifierDB=db, settings=vset(ver)), client_kind='srp')
+    m = base_model(2 if verifier == 'server' else 1, ver)
+    m['kx'] = 2
+    m['srp_user'] = list(b'test')
+    m['srp_known'] = True
+    m['kx_alert'] = 47                            # RFC 5054 2.5.4 / 2.5.3: A % N == 0 (B % N == 0) -> illegal_parameter
+    m['a_fin'].append((0 if verifier == 'server' else 1, [11], True))
+    m['by_construction'] += ['kx_alert(A or B = 0 mod N)']
+    vout, pout = (so, co) if verifier == 'server' else (co, so)
+    o = finish(case, p, verifier, vout, pout, m, False, None)
+    o['key'] = 'srp'
+    o['how'] = '%s=%dN' % ('A' if verifier == 'server' else 'B', k)
+    return o
+
+
 # ---- post-handshake authentication ---------------------------------------------------------
 def site_pha(case, rng):
     """(5) server under test: request_post_handshake_auth, then the client's Certificate /
@@ -820,6 +927,13 @@ def extra_cases(quick=False):
     for key in ['client-rsa', 'client-ecdsa']:
         for how in ['honest', 'flip-binder', 'bad-finished']:
             out.append(dict(runner='ticket', site='ticket', ver=(3, 4), key=key, how=how))
+        for how in ['hash-change', 'expired']:
+            for rq in (False, True):
+                out.append(dict(runner='ticket_replay', site='ticket-replay', ver=(3, 4), key=key, how=how, req_cert=rq))
+    for ver in [(3, 1), (3, 3)]:
+        for k in (0, 1, 2, 3):
+            out.append(dict(runner='srp_multiple', site='srp-A-multiple', ver=ver, how='A=kN', k=k, verifier='server'))
+            out.append(dict(runner='srp_multiple', site='srp-B-multiple', ver=ver, how='B=kN', k=k, verifier='client'))
     for key in ['client-rsa', 'client-ecdsa', 'client-ed25519']:
         for how in ['honest', 'other-key', 'other-msg', 'omit', 'flip', 'empty', 'short', 'zero', 'stale', 'bad-finished']:
             out.append(dict(runner='pha', site='pha', ver=(3, 4), key=key, how=how))
@@ -833,7 +947,7 @@ def extra_cases(quick=False):
     return out
 
 
-SITES = {'cert': site_cert, 'srp': site_srp, 'srp_unproved': site_srp_unproved, 'psk': site_psk, 'pha': site_pha, 'ticket': site_ticket,
+SITES = {'cert': site_cert, 'srp': site_srp, 'srp_unproved': site_srp_unproved, 'psk': site_psk, 'pha': site_pha, 'ticket': site_ticket, 'ticket_replay': site_ticket_replay, 'srp_multiple': site_srp_multiple,
          'dc': site_dc}
 
 
